@@ -394,6 +394,10 @@ func c12Headers(rc *RC, sutReceives bool) {
 	// 5/6 from/to replaced by an address of the same length and shape (one letter of the local- or domainpart differs)
 	// 7/8 from/to replaced by an address made of the same characters with the '@' in another place
 	changed := ch.Int("workload", 9)
+	anonFirst := ch.Chance("workload", 1, 3) && sutReceives && restartCase
+	if anonFirst && changed%2 == 1 {
+		changed++ // nothing the restarted stream says about its origin is a change; what it says about its addressee is
+	}
 	moveAt := func(a string) string {
 		// me@example.net -> meexample.net, example.net -> exam@ple.net
 		if i := strings.IndexByte(a, '@'); i > 0 {
@@ -464,8 +468,15 @@ func c12Headers(rc *RC, sutReceives bool) {
 			first = valid
 		}
 		if sutReceives {
-			// scripted initiator
-			io.WriteString(peerConn, first(origin.String(), "example.net"))
+			// scripted initiator; in a third of the restart cases its first header does not say who it is (a client may
+			// leave that out before the stream is secured): the receiver then adopts the origin of the restarted stream,
+			// but whom the stream is addressed to was fixed by the first header
+			if anonFirst {
+				io.WriteString(peerConn, first("", "example.net"))
+				rc.Fire("first-header-without-from")
+			} else {
+				io.WriteString(peerConn, first(origin.String(), "example.net"))
+			}
 			if !restartCase {
 				if hc.strErr && hangUp {
 					peerConn.Close()
